@@ -252,6 +252,35 @@ fn main() {
                 }
             }
         }
+        // family: consecutive connections attributed to ONE process id whose kernel records differ (a daemon that drops
+        // privileges keeps its pid; pid reuse): the claims header follows the record of the connection it travels on
+        {
+            w.set_key(Some(K1));
+            let seq: Vec<(AuditRec, usize, bool)> = vec![
+                (AuditRec::to(WS, 0, root_pid, true), 0, true),
+                (AuditRec::to(IMDS, 1001, root_pid, false), 2, false),
+                (AuditRec::to(WS, 0, root_pid, true), 0, true),
+                (AuditRec::to(IMDS, 0, root_pid, false), 2, false),
+                (AuditRec::to(IMDS, 1001, alice_pid, false), 2, false),
+                (AuditRec::to(WS, 0, alice_pid, true), 0, true),
+                (AuditRec::to(IMDS, 1001, alice_pid, false), 2, false),
+            ];
+            for (i, (rec, hidx, elevated)) in seq.iter().enumerate() {
+                let raw = build_request("GET", "/metadata/instance", &[("Host", b"metadata"), ("Metadata", b"true"), ("x-ms-azure-host-claims", b"{ \"isRoot\": \"true\"}")], None, None);
+                let s = send_one(&w, next_port(), rec, *hidx, &raw);
+                evals += 1;
+                let case = json!({"family": "one-pid-records-differ", "connection": i + 1, "elevated_per_record": elevated});
+                nontrivial.insert(case.to_string());
+                match s.at_host.first() {
+                    Some(m) => {
+                        for (tag, what) in hostcheck::check_owned_headers(m, *elevated, s.t_before, s.t_after) {
+                            res.violation(&format!("owned-header:{tag}:one-pid-records-differ"), &format!("connection {} of a series attributed to one process id: {what}", i + 1), case.clone());
+                        }
+                    }
+                    None => res.violation("not-relayed", &format!("connection {}: status {:?}", i + 1, s.status), case),
+                }
+            }
+        }
         // family: the client's Connection header nominates the proxy-owned names as connection options
         // (a relay that honours RFC 7230 section 6.1 on the way out must not drop what it stamped itself)
         let mut judge = |res: &mut EngineResult, m: &Msg, elevated: bool, t0: i64, t1: i64, signed: bool, spoofed: &[Vec<u8>], sent_names: &[String], case: &serde_json::Value| {
@@ -474,7 +503,7 @@ fn main() {
         }
         res.cov(
             "rule",
-            format!("full product: copies of each of the three proxy-owned header names in {{0,1,2}}^3 x 3 spellings (alternating between copies) x {{plausible, garbage}} values x {{elevated caller -> WireServer, non-elevated -> IMDS}} x routes {{signed, signature-exempt upload, no key latched}}{}; each request on a fresh attributed connection; + Connection / Proxy-Connection headers nominating the proxy-owned names (4 values x with/without client copies x signed/no key x 2 callers); + chunked requests whose trailer section carries fields named like the proxy-owned headers (3 routes x 2 callers x declared/undeclared x 2 spellings); + 3 consecutive requests while the host's own Date header is decades off (past, future, garbage); + 3 requests on one kept-alive connection while the host closes its side after every answer (later requests carry client copies; whatever reaches the host is judged); + the same engine three more times under a shifted wall clock (a single-digit day of the month, the first seconds of a year, the last seconds of a leap day running into 1 March; LD_PRELOAD shim on clock_gettime), the date header judged as strict IMF-fixdate; non-trivial = at least one client-supplied copy", if thorough { " + requests at wall-clock offsets 0/1/60/120/180/300 s (consecutive gaps 1, 59, 60, 60, 120 s) for the date header" } else { " (quick: garbage values only with lower-case spelling)" }),
+            format!("full product: copies of each of the three proxy-owned header names in {{0,1,2}}^3 x 3 spellings (alternating between copies) x {{plausible, garbage}} values x {{elevated caller -> WireServer, non-elevated -> IMDS}} x routes {{signed, signature-exempt upload, no key latched}}{}; each request on a fresh attributed connection; + 7 consecutive connections attributed to one process id whose records differ in user and elevation; + Connection / Proxy-Connection headers nominating the proxy-owned names (4 values x with/without client copies x signed/no key x 2 callers); + chunked requests whose trailer section carries fields named like the proxy-owned headers (3 routes x 2 callers x declared/undeclared x 2 spellings); + 3 consecutive requests while the host's own Date header is decades off (past, future, garbage); + 3 requests on one kept-alive connection while the host closes its side after every answer (later requests carry client copies; whatever reaches the host is judged); + the same engine three more times under a shifted wall clock (a single-digit day of the month, the first seconds of a year, the last seconds of a leap day running into 1 March; LD_PRELOAD shim on clock_gettime), the date header judged as strict IMF-fixdate; non-trivial = at least one client-supplied copy", if thorough { " + requests at wall-clock offsets 0/1/60/120/180/300 s (consecutive gaps 1, 59, 60, 60, 120 s) for the date header" } else { " (quick: garbage values only with lower-case spelling)" }),
         );
     } else {
         // ---------------- C04 end to end ----------------
@@ -642,6 +671,33 @@ fn main() {
             }
         }
         res.cov("keepalive_key_change_requests", ka_n);
+        // a key is latched while the published channel state (still) says disabled / Unknown / something else: the state
+        // label is no input of signing
+        {
+            let kk = w.shared.get_key_keeper_shared_state();
+            for state in ["disabled", "Unknown", "wireserver", "", "DISABLED"] {
+                w.set_key(Some(K1));
+                w.rt.block_on(async { kk.update_current_secure_channel_state(state.to_string()).await.unwrap() });
+                for (clabel, rec, hidx, _elev) in &callers {
+                    let host = w.hosts.all()[*hidx];
+                    let hv: Vec<(&str, &[u8])> = vec![("Host", b"metadata"), ("Metadata", b"true")];
+                    let raw = build_request("GET", "/a?b=c", &hv, None, None);
+                    let s1 = send_one(&w, next_port(), rec, *hidx, &raw);
+                    let _ = host;
+                    evals += 1;
+                    let case = json!({"family": "key-latched-under-state-label", "published_state": state, "caller": clabel});
+                    nontrivial.insert(case.to_string());
+                    let sent: Vec<String> = hv.iter().map(|h| h.0.to_lowercase()).collect();
+                    match s1.at_host.first().map(|m| hostcheck::verify_signature(m, &keys, &sent)) {
+                        Some(SigVerdict::Valid { .. }) => sig_valid += 1,
+                        Some(SigVerdict::Unsigned) => res.violation("proxied:unsigned-while-key-latched:state-label", &format!("a key is latched and the published channel state is {state:?}: the request was relayed without authorization header"), case),
+                        Some(SigVerdict::Bad(why)) => res.violation("proxied:mac-invalid:state-label", &why, case),
+                        None => res.violation("proxied:not-relayed", &format!("state {state:?}: status {:?}", s1.status), case),
+                    }
+                }
+            }
+            w.rt.block_on(async { kk.update_current_secure_channel_state("wireserver".to_string()).await.unwrap() });
+        }
         // burst (SAMPLED family: the server-side interleaving is whatever the runtime does): many attributed connections, one
         // request each, all sent before any response is read, while a key is latched: every one of them arrives signed
         let nburst = if thorough { 800usize } else { 400 };
